@@ -202,7 +202,9 @@ def handle (line : String) : String :=
         -- `h1` is the proof hypothesis H1 (an ASSUMPTION about `core`, not a demand of the property): the
         -- model states it as a constant, the implementation reports what it saw; a difference is a broken tie
         -- ("H1 no longer holds: f64_finite_valid is not applicable"), not a violation with an input
-        reply [kv "cls" "finite", kv "dt" (hexS dt), kvB "valid" valid,
+        -- `lex`: what the Lean model of `Display for f64` prints (compared with the implementation's)
+        let mlex := match RustF64.display x with | some s => hexS s | none => "model-display-failed"
+        reply [kv "cls" "finite", kv "dt" (hexS dt), kv "lex" mlex, kvB "valid" valid,
                kv "h1" "1", kvB "h1.seen" (Xsd.matchesS Xsd.rustFiniteDisplay l), kv "copy.drift" "0",
                kv "o.lex" (hexS (if good then l else invalidMarker "double")),
                kv "o.back" (hex16 x)]
